@@ -48,7 +48,12 @@ def replay(pid, path):
             print("  program no longer compiles: %s" % shards.diag_summary(c))
             print("VIOLATION property=%s replay=%s" % (pid, path))
             return 1
-        rc, lines, err = core.run_bin(c.out, meta.get("args") or [str(j.get("seed", 0)), "quick"])
+        try:
+            rc, lines, err = core.run_bin(c.out, meta.get("args") or [str(j.get("seed", 0)), "quick"], timeout=shards.UNIT_TIMEOUT, raise_timeout=True)
+        except core.Timeout:
+            print("  the program does not terminate within %d s" % shards.UNIT_TIMEOUT)
+            print("VIOLATION property=%s replay=%s" % (pid, path))
+            return 1
         viol = [l for l in lines if l.startswith("V\t") or l.startswith("P\t")]
         for l in viol[:10]:
             print("  " + l[:400])
